@@ -8,6 +8,7 @@ import (
 	"go/constant"
 	"go/token"
 	"go/types"
+	"os"
 	"sort"
 	"strings"
 )
@@ -801,17 +802,12 @@ func c02Unlink(p *Prog, r *Report) {
 // level (success path: every error is nil), whatever control structure builds the filter. The filter is read at
 // the call that passes it to the core.
 func levelTableByEval(p *Prog, fi *FuncInfo, callee string, levels map[string]string) (map[string]levelRow, string, bool) {
-	info := fi.Pkg.TypesInfo
 	f := p.FlatOf(fi)
 	sites := f.CallSites(callee)
 	if len(sites) != 1 {
 		return nil, "", false
 	}
 	call := sites[0].Call
-	filterObj := objOf(info, call.Args[len(call.Args)-1])
-	if filterObj == nil {
-		return nil, "", false
-	}
 	res := map[string]levelRow{}
 	for val, name := range levels {
 		lv := val
@@ -833,8 +829,12 @@ func levelTableByEval(p *Prog, fi *FuncInfo, callee string, levels map[string]st
 					return &Val{Tag: "tx.Id"}, true
 				}
 			case *ast.Ident:
-				if o := objOf(info, x); o != nil && isErrorType(o.Type()) {
+				if o := objOf(env.Pkg.TypesInfo, x); o != nil && isErrorType(o.Type()) {
 					return &Val{Nil: true}, true
+				}
+				// the transaction record itself is opaque (it comes from the registry); its fields are given above
+				if o := objOf(env.Pkg.TypesInfo, x); o != nil && env.Vars[o] == nil && strings.HasSuffix(o.Type().String(), "internal/model.Transaction") {
+					return &Val{Tag: "tx"}, true
 				}
 			}
 			return nil, false
@@ -854,7 +854,15 @@ func levelTableByEval(p *Prog, fi *FuncInfo, callee string, levels map[string]st
 		if !reached {
 			return nil, "", false
 		}
-		fv := env.Vars[filterObj]
+		// the filter as it is handed to the core: the value of the argument expression (a variable, or a call of
+		// a pure helper that builds it)
+		fv, everr := env.Eval(call.Args[len(call.Args)-1])
+		if everr != nil {
+			if os.Getenv("FSDBCHECK_DEBUG") != "" {
+				fmt.Println("DEBUG levelTableByEval", fi.Key, name, everr)
+			}
+			return nil, "", false
+		}
 		row := levelRow{Level: "fs_db." + name, TxId: "-", BeforeSeq: "-"}
 		if fv != nil && fv.Fields != nil {
 			if t := fv.Fields["TxId"]; t != nil && !t.Nil {
